@@ -408,6 +408,9 @@ func checkDiffusion(k *K, m *G, r *vrt.Rand, rep Rep) {
 			var got map[int64]float64
 			class := lp.name
 			if kk.try("Diffuse", class, func() { got = network.Diffuse(dst, h, lp.l, t) }) {
+				if ref.MaxDiff(L, lapToRef(lp.l)) != 0 {
+					kk.viol("Diffuse|"+class+"|laplacian-argument-modified", matOut(lp.l), "Diffuse modified the Laplacian it was given")
+				}
 				kk.eval("Diffuse", fmt.Sprintf("%s|t=%g|dst=%d", class, t, dstMode), m.M() > 0 && t > 0)
 				checkDiffuseMaps(kk, "Diffuse", class, m, dst, got, h, hCopy, extra, sentinel)
 				worst := 0.0
@@ -487,6 +490,9 @@ func checkDiffusion(k *K, m *G, r *vrt.Rand, rep Rep) {
 			var gotOK bool
 			class := lp.name
 			if kk.try("DiffuseToEquilibrium", class, func() { got, gotOK = network.DiffuseToEquilibrium(dst, h, lp.l, tol, iters) }) {
+				if ref.MaxDiff(L, lapToRef(lp.l)) != 0 {
+					kk.viol("DiffuseToEquilibrium|"+class+"|laplacian-argument-modified", matOut(lp.l), "DiffuseToEquilibrium modified the Laplacian it was given")
+				}
 				kk.eval("DiffuseToEquilibrium", fmt.Sprintf("%s|%s|tol=%g|iters=%d|conv=%v", shapeClass(m), class, tol, iters, gotOK), iters > 0)
 				checkDiffuseMaps(kk, "DiffuseToEquilibrium", class, m, dst, got, h, hCopy, extra, sentinel)
 				if ambiguous {
